@@ -577,3 +577,36 @@ def _bind(t, value, defs):
 def single_defs(fnode):
     """Locals assigned exactly once from an expression: name -> expression."""
     return {k: v[0] for k, v in local_defs(fnode).items() if len(v) == 1 and v[0] is not None}
+
+
+def lexical_guard(module, node, stop):
+    """Conjuncts [(text, polarity)] of the enclosing `if` tests of `node` (innermost last), up to `stop`.
+    An else-branch of a multi-conjunct test contributes the negated whole test as one atom."""
+    out = []
+    child = node
+    p = module.parent.get(child)
+    while p is not None and child is not stop:
+        if isinstance(p, ast.If):
+            if _in_block(child, p.body):
+                out = conjuncts(p.test) + out
+            elif _in_block(child, p.orelse):
+                cj = conjuncts(p.test)
+                if len(cj) == 1:
+                    out = [(cj[0][0], not cj[0][1])] + out
+                else:
+                    out = [("(%s)" % ast.unparse(p.test), False)] + out
+        elif isinstance(p, ast.IfExp):
+            if child is p.body:
+                out = conjuncts(p.test) + out
+            elif child is p.orelse:
+                cj = conjuncts(p.test)
+                out = ([(cj[0][0], not cj[0][1])] if len(cj) == 1 else [("(%s)" % ast.unparse(p.test), False)]) + out
+        elif isinstance(p, ast.While) and _in_block(child, p.body) and not (isinstance(p.test, ast.Constant) and p.test.value):
+            out = conjuncts(p.test) + out
+        child = p
+        p = module.parent.get(child)
+    return out
+
+
+def _in_block(node, block):
+    return any(node is s for s in block)
